@@ -98,10 +98,16 @@ fn main() {
                 2 => t.remove_rime(),
                 _ => t.remove_tone(),
             };
+            if Syllable::try_from(t.to_u16()).ok() != Some(t) {
+                out.oracle_fail("C13", "new", &format!("remove kind {} on {:#06x} gives {:#06x}, which try_from rejects", k, c, t.to_u16()));
+            }
             rm.push(t.to_u16().to_string());
         }
         let mut t = s;
         let popped = t.pop();
+        if Syllable::try_from(t.to_u16()).ok() != Some(t) {
+            out.oracle_fail("C13", "new", &format!("pop on {:#06x} gives {:#06x}, which try_from rejects", c, t.to_u16()));
+        }
         let blen = text.len();
         out.rec(&format!(
             "syl code {} => {} {} {} {} {} {} {} {} {} {} {} {}",
